@@ -422,6 +422,12 @@ _EXT_RAISES: Dict[str, List[ExcTok]] = {
     "builtins.next": [("builtins.StopIteration", True)],
     "inspect.signature": [("builtins.ValueError", True), ("builtins.TypeError", True)],
     "shlex.split": [("builtins.ValueError", True)],  # unbalanced quotes, trailing backslash
+    # asking a task / future for its outcome raises it: the exception it ended with (result), CancelledError when it was cancelled,
+    # InvalidStateError when it is not done
+    "Task.exception": [(CANCELLED, True), ("asyncio.exceptions.InvalidStateError", True)],
+    "Future.exception": [(CANCELLED, True), ("asyncio.exceptions.InvalidStateError", True)],
+    "Task.result": [(EXCEPTION, False), (CANCELLED, True)],
+    "Future.result": [(EXCEPTION, False), (CANCELLED, True)],
     "textwrap.fill": [("builtins.ValueError", True)],  # width <= 0, placeholder wider than the width
     "textwrap.wrap": [("builtins.ValueError", True)],
     "textwrap.shorten": [("builtins.ValueError", True)],
